@@ -4,7 +4,7 @@ def run(ctx):
     return standard(ctx,
         props=[("Props.C10", ["c10_strong", "c10_strong_complete", "c10_pipeline", "c10_weak_is_client_error",
                               "c10_decoder_total", "c10_old_rsa_refuted"])],
-        harness=("TestVerif_C10", ["kmd/common.go", "kmd/creds.go", "kmd/consts.go", "kmd/c10.go", "kmd/c11.go"]),
+        harness=("TestVerif_C10", ["kmd/common.go", "kmd/creds.go", "kmd/consts.go", "kmd/c10.go", "kmd/c11.go", "kmd/tokens.go", "kmd/c04.go", "kmd/c10_tokens.go"]),
         cases=("CasesC10.v", [("c10_pred_mismatches", "ValidatePublicKeyStrength = model validate on every RSA size 1..4200, curves, Ed25519, others"),
                               ("c10_pipeline_mismatches", "status class of the six issuing paths = model pipeline on the key corpus")], None),
         trusted=["key parsers (x509.ParsePKIXPublicKey, ssh.ParseAuthorizedKey, pem) run in front of the model; the model starts at the parsed key description (algorithm, modulus bits, exponent, curve)",
